@@ -407,6 +407,18 @@ pub fn run(args: &Args) -> i32 {
                                     bytes: usage.bytes as i64, merge_keys: usage.merge_keys as i64 };
                     let (res, rep, items) = run_entry("read", &text3, &own);
                     w.put(&Rec { id: format!("{id}-x3"), entry: "read", yaml: &text3, raw: &raw3, lim: own, res, rep, items });
+                    // the document, then one that exceeds the scalar-byte limit (at its first node / inside a sequence), then
+                    // the document again: the copy after the failed document is still within its own limits and must be yielded
+                    let big = "x".repeat(usage.bytes + 1);
+                    for (tag, mid) in [("y3s", format!("{big}\n")), ("y3n", format!("- {big}\n"))] {
+                        let texty = format!("{sep}{body}---\n{mid}{sep}{body}");
+                        if let Some(rawy) = full_raw(&texty) {
+                            if rawy.iter().filter(|e| e.k == "DS").count() == 3 {
+                                let (res, rep, items) = run_entry("read", &texty, &own);
+                                w.put(&Rec { id: format!("{id}-{tag}"), entry: "read", yaml: &texty, raw: &rawy, lim: own, res, rep, items });
+                            }
+                        }
+                    }
                 }
             }
         }
